@@ -7,6 +7,7 @@ import (
 	"github.com/google/uuid"
 
 	"github.com/aptpod/iscp-go/message"
+	"github.com/aptpod/iscp-go/wire"
 )
 
 var randomString = func() string {
@@ -194,9 +195,12 @@ func (c *Conn) call(ctx context.Context, msg *message.UpstreamCall) (*message.Up
 	c.upstreamCallAckCh[msg.CallID] = ch
 	c.upstreamCallAckMu.Unlock()
 
+RESEND:
+	var sentOn *wire.ClientConn
 	err := c.send(ctx, func(ctx context.Context) error {
 		c.wireConnMu.Lock()
 		defer c.wireConnMu.Unlock()
+		sentOn = c.wireConn
 		return c.wireConn.SendUpstreamCall(ctx, msg)
 	})
 	if err != nil {
@@ -210,5 +214,9 @@ func (c *Conn) call(ctx context.Context, msg *message.UpstreamCall) (*message.Up
 		return nil, ctx.Err()
 	case ack := <-ch:
 		return ack, nil
+	case <-sentOn.Closed():
+		// the connection was lost before the ack arrived: send the call again after recovery
+		// (send waits for the reconnect and fails with ErrConnectionClosed if the Conn was closed)
+		goto RESEND
 	}
 }
